@@ -264,6 +264,12 @@ class Connector:
     connected.upon(accept, enter=connected, outputs=[])
     connected.upon(stop, enter=stopped, outputs=[stop_everything])
 
+    # a candidate that finished its handshake just before we were stopped
+    # still has its (eventual-send) add_candidate/accept on the way; the
+    # connection itself was already told to disconnect by stop_everything
+    stopped.upon(add_candidate, enter=stopped, outputs=[])
+    stopped.upon(accept, enter=stopped, outputs=[])
+
     # from Manager: start, got_hints, stop
     # maybe add_candidate, accept
 
